@@ -1,92 +1,127 @@
 (* C24 Each local ICE candidate is reported once, then exactly one
-   end-of-gathering.  Statements only; proofs live in Proofs/Gather.v.
+   end-of-gathering.  Statements only; proofs live in Proofs/Gather*.v.
 
-   Full statement (property text): on every schedule, once the agent's
-   callbacks and all flushCandidates calls have finished and the pool has been
-   flushed (or there is none),
-       out = (the gathered candidates, each once, in some order) ++ [nil].
-   It is refuted by c24_full_refuted (a candidate after the nil); what holds on
-   every schedule is c24_candidates_once, c24_end_at_most_once and c24_partial
-   (everything except the position of the nil), c24_partial_nopool (the full
-   statement when there is no pool) and c24_partial_atomic_flush (the position
-   of the nil when no flush is interleaved with the agent). *)
+   Model (Model/Gather.v): the agent's callback goroutine, the candidate pool,
+   any number of flushCandidates calls (SetLocalDescription) and ICE restarts
+   (a restart starts the next gathering cycle on the same gatherer).  Every
+   delivery carries its cycle number as a ghost tag; [view k o] is what the
+   application saw of cycle k, [untagged o] all of it.  [run true] is the code
+   after "fix: the flush that is reporting pooled ICE candidates also reports
+   the end of candidates"; the defect it removed is kept as an Example on
+   [run false], the one the earlier repair removed on Part B of the model.
+
+   Full statement (property text), one gathering cycle: on every schedule, once
+   the agent's callbacks and all flushCandidates calls have finished and the
+   pool has been flushed (or there is none),
+       out = (the gathered candidates, each once, in some order) ++ [nil]
+   -- c24_full.  Per gathering cycle with ICE restarts: c24_candidates_once,
+   c24_end_at_most_once and c24_order on every schedule; c24_cycles_full
+   (c24_partial extended to restarts) when no restart happens while candidates
+   are still pooled or being flushed; without that premise the end markers of
+   two cycles can merge (c24_restart_pooled_refuted). *)
 From Coq Require Import List Arith.
 Import ListNotations.
-From Verif Require Import Model.Gather Proofs.Gather Proofs.GatherAtomic.
+From Verif Require Import Model.Gather Proofs.Gather Proofs.GatherTok Proofs.GatherOrder Proofs.GatherFull.
 
-(* every gathered candidate is reported exactly once: never more often than it
-   was gathered, at any moment of any schedule ... *)
-Theorem c24_candidates_never_twice : forall poolsize cands nflush sch x,
-  count_occ Nat.eq_dec (emitted (out (run (init poolsize cands nflush) sch))) x
-  <= count_occ Nat.eq_dec cands x.
-Proof. exact candidates_at_most_once. Qed.
+(* one gathering cycle, pool size 0 or 1, any number of SetLocalDescription
+   calls, EVERY schedule: nothing after the nil, the nil exactly once, every
+   candidate exactly once *)
+Theorem c24_full : forall poolsize cands nflush sch,
+  (poolsize = 0 \/ 0 < nflush) ->
+  let s := run true (init1 poolsize cands nflush) sch in
+  quiescent s = true ->
+  nil_last (untagged (out s)) = true /\
+  nil_count (untagged (out s)) = 1 /\
+  forall c, count_occ Nat.eq_dec (emitted (untagged (out s))) c = count_occ Nat.eq_dec cands c.
+Proof. exact full_one_cycle. Qed.
+Print Assumptions c24_full.
+
+(* with ICE restarts, every schedule: no candidate of any cycle is ever
+   reported more often than it was gathered ... *)
+Theorem c24_candidates_never_twice : forall poolsize first more nflush sch x,
+  cnt x (cands_of (out (run true (init poolsize first more nflush) sch))) <= cnt x (all_cands first more).
+Proof. exact candidates_never_twice. Qed.
 Print Assumptions c24_candidates_never_twice.
 
-(* ... and exactly as often once everything has finished and
-   SetLocalDescription has flushed the pool (or the pool size is 0) *)
-Theorem c24_candidates_once : forall poolsize cands nflush sch,
+(* ... and exactly as often once everything has finished and SetLocalDescription
+   has flushed the pool (or the pool size is 0) *)
+Theorem c24_candidates_once : forall poolsize first more nflush sch,
   (poolsize = 0 \/ 0 < nflush) ->
-  let s := run (init poolsize cands nflush) sch in
+  let s := run true (init poolsize first more nflush) sch in
   quiescent s = true ->
-  forall x, count_occ Nat.eq_dec (emitted (out s)) x = count_occ Nat.eq_dec cands x.
+  forall x, cnt x (cands_of (out s)) = cnt x (all_cands first more).
 Proof. exact candidates_exactly_once. Qed.
 Print Assumptions c24_candidates_once.
 
-(* the end-of-candidates marker is never reported twice, on any schedule, with
-   any number of SetLocalDescription calls (code after the repair) *)
-Theorem c24_end_at_most_once : forall poolsize cands nflush sch,
-  nil_count (out (run (init poolsize cands nflush) sch)) <= 1.
-Proof. exact end_at_most_once. Qed.
+(* the end marker of a gathering cycle is never reported twice: every schedule,
+   any number of SetLocalDescription calls and restarts *)
+Theorem c24_end_at_most_once : forall k poolsize first more nflush sch,
+  nil_count (view k (out (run true (init poolsize first more nflush) sch))) <= 1.
+Proof.
+  intros. rewrite nil_count_view. apply end_at_most_once_per_cycle.
+Qed.
 Print Assumptions c24_end_at_most_once.
 
-(* what holds of the full statement on every schedule: each candidate once
-   and the marker exactly once (its position is the open point) *)
-Theorem c24_partial : forall poolsize cands nflush sch,
+(* per gathering cycle nothing is reported after the cycle's end marker: every
+   schedule, any number of SetLocalDescription calls and restarts *)
+Theorem c24_order : forall k poolsize first more nflush sch,
+  nil_last (view k (out (run true (init poolsize first more nflush) sch))) = true.
+Proof. exact order_per_cycle. Qed.
+Print Assumptions c24_order.
+
+(* c24_partial for histories with restarts: when no restart happens while
+   candidates are pooled or being flushed (runG; such runs are runs of the
+   model), per gathering cycle: every candidate once, nothing after the end
+   marker, and the end marker exactly once iff the cycle completed *)
+Theorem c24_cycles_full : forall poolsize first more nflush sch,
   (poolsize = 0 \/ 0 < nflush) ->
-  let s := run (init poolsize cands nflush) sch in
+  let s := runG (init poolsize first more nflush) sch in
   quiescent s = true ->
-  (forall x, count_occ Nat.eq_dec (emitted (out s)) x = count_occ Nat.eq_dec cands x) /\
-  nil_count (out s) = 1.
-Proof. exact partial_all_schedules. Qed.
-Print Assumptions c24_partial.
+  (forall x, cnt x (cands_of (out s)) = cnt x (all_cands first more)) /\
+  forall k, nil_last (view k (out s)) = true /\
+            nil_count (view k (out s)) = if nth k (map snd (first :: more)) false then 1 else 0.
+Proof. exact full_cycles. Qed.
+Print Assumptions c24_cycles_full.
 
-(* the full statement fails with a pool: the flush has taken the pooled
-   candidate but not yet reported it when the nil callback reports the end *)
-Theorem c24_full_refuted :
-  exists poolsize cands nflush sch,
-    let s := run (init poolsize cands nflush) sch in
-    quiescent s = true /\ nil_last (out s) = false.
-Proof. exact full_refuted. Qed.
-Print Assumptions c24_full_refuted.
+Theorem c24_guarded_runs_are_runs : forall sch s, exists sch', runG s sch = run true s sch'.
+Proof. exact runG_is_run. Qed.
+Print Assumptions c24_guarded_runs_are_runs.
 
-(* without a pool the full statement holds on every schedule: the handler
-   sequence is always a prefix of candidates-then-nil, and is all of it at the end *)
-Theorem c24_partial_nopool : forall cands nflush sch,
-  let s := run (init 0 cands nflush) sch in
-  (exists rest, out s ++ rest = map Some cands ++ [None]) /\
-  (quiescent s = true -> out s = map Some cands ++ [None]).
-Proof. exact nopool_full. Qed.
-Print Assumptions c24_partial_nopool.
+(* an ICE restart before the first SetLocalDescription of a connection with a
+   candidate pool: the first cycle's candidates and its end marker are still
+   pooled; both cycles complete, the flush reports ONE end marker for both *)
+Theorem c24_restart_pooled_refuted :
+  exists first more sch,
+    let s := run true (init 1 first more 1) sch in
+    quiescent s = true /\ nth 0 (map snd (first :: more)) false = true /\
+    nil_count (view 0 (out s)) = 0.
+Proof.
+  exists ([1], true), [([2], true)],
+    [TAgent; TAgent; TAgent; TRestart; TAgent; TAgent; TAgent; TFlush 0; TFlush 0; TFlush 0; TFlush 0].
+  cbv zeta. destruct pooled_restart_merges_ends as (H1 & _ & H3 & _). repeat split; assumption.
+Qed.
+Print Assumptions c24_restart_pooled_refuted.
 
-(* with a pool the full statement holds on every schedule in which no
-   flushCandidates call is interleaved with the agent's callbacks (runF runs
-   each flush in one block; such runs are runs of the faithful model):
-   nothing is reported after the nil *)
-Theorem c24_partial_atomic_flush : forall poolsize cands nflush sch,
-  nil_last (out (runF (init poolsize cands nflush) sch)) = true.
-Proof. exact atomic_flush_order. Qed.
-Print Assumptions c24_partial_atomic_flush.
-
-Theorem c24_atomic_flush_runs_are_runs : forall sch s,
-  exists sch', runF s sch = run s sch'.
-Proof. exact runF_is_run. Qed.
-Print Assumptions c24_atomic_flush_runs_are_runs.
-
-(* premises are satisfiable: pool size 1, two candidates, two flushes interleaved *)
-Example c24_partial_nontrivial :
-  let s := run (init 1 [1; 2] 2) [0; 1; 0; 1; 0; 0; 2; 0; 0] in
-  quiescent s = true /\ out s = [Some 1; Some 2; None].
+(* premises are satisfiable: pool size 1, two candidates, two flushes
+   interleaved; two cycles with a restart after the first SetLocalDescription *)
+Example c24_full_nontrivial :
+  let s := run true (init1 1 [1; 2] 2)
+             [TAgent; TFlush 0; TAgent; TFlush 0; TAgent; TAgent; TFlush 1; TAgent; TAgent; TFlush 0] in
+  quiescent s = true /\ untagged (out s) = [Some 1; Some 2; None].
 Proof. vm_compute. split; reflexivity. Qed.
+
+Example c24_cycles_nontrivial :
+  let s := runG (init 1 ([1], true) [([2], true)] 2)
+             [TAgent; TAgent; TAgent; TFlush 0; TFlush 0; TFlush 0; TRestart; TAgent; TAgent; TFlush 1;
+              TAgent; TAgent; TAgent] in
+  quiescent s = true /\ out s = [(0, Some 1); (0, None); (1, Some 2); (1, None)].
+Proof. vm_compute. split; reflexivity. Qed.
+
+(* the code before the flushing repair: a candidate after the nil *)
+Example c24_before_flushing_repair :
+  let s := run false (init1 1 [1] 1) [TAgent; TFlush 0; TAgent; TAgent; TAgent; TFlush 0] in
+  quiescent s = true /\ untagged (out s) = [None; Some 1] /\ nil_last (untagged (out s)) = false.
+Proof. exact order_refuted_before_repair. Qed.
 
 (* the code before "fix: report the end of ICE candidates once ..." (Model/Gather.v
    part B): sequential double nil, and the race on the state read *)
